@@ -21,6 +21,12 @@
 // stdout: ok <N> m <N*N> rhs <N> a <N> ev <n+nq>      (N = n + number of drifts; evaluations at the
 //                                                       n training points first, then at the queries)
 //         err <invalid-length|no-data|insufficient-data|degenerate|singular [N m.. rhs..]|other>
+// The harness is compiled in two parts (in parallel, see checks/C19.py):
+//   -DC19_PART=1 : k1 k2 k3 pw cu kf1 kf2 kf3      -DC19_PART=2 : f11 f12 f13 K1 K2 K3 F11 F12 F13
+// a part answers `skip` to the kinds of the other one; without the macro everything is served.
+#ifndef C19_PART
+#define C19_PART 0
+#endif
 #include <cmath>
 #include <cstdint>
 #include <cstring>
@@ -72,9 +78,12 @@ namespace tfel::math {
 }  // namespace tfel::math
 
 #include "TFEL/Math/Kriging.hxx"
-#include "TFEL/Math/FactorizedKriging.hxx"
 #include "TFEL/Math/Kriging/KrigingPieceWiseLinearModel1D.hxx"
+#if C19_PART != 2
 #include "TFEL/Math/Parser/KrigedFunction.hxx"
+#endif
+#if C19_PART != 1
+#include "TFEL/Math/FactorizedKriging.hxx"
 // the wrappers of the current tree, in this translation unit (-I<repo>/src/Math)
 #include "KrigingUtilities.cxx"
 #include "Kriging1D.cxx"
@@ -83,6 +92,7 @@ namespace tfel::math {
 #include "FactorizedKriging1D1D.cxx"
 #include "FactorizedKriging1D2D.cxx"
 #include "FactorizedKriging1D3D.cxx"
+#endif
 
 using namespace tfel::math;
 
@@ -171,6 +181,7 @@ static void run_kriging(K& k, const Request& r, std::ostringstream& os) {
   finish(os, ev);
 }
 
+#if C19_PART != 1
 template <unsigned short M>
 static void run_factorized(const Request& r, std::ostringstream& os) {
   FactorizedKriging<1u, M, double, KrigingPieceWiseLinearModel1D<double>,
@@ -188,6 +199,7 @@ static void run_factorized(const Request& r, std::ostringstream& os) {
   finish(os, ev);
 }
 
+#endif
 static std::vector<double> column(const std::vector<double>& p,
                                   const std::size_t n,
                                   const std::size_t d,
@@ -197,6 +209,7 @@ static std::vector<double> column(const std::vector<double>& p,
   return r;
 }
 
+#if C19_PART != 2
 template <unsigned short N>
 static void run_kriged_function(const Request& r, std::ostringstream& os) {
   using KF = tfel::math::parser::KrigedFunction<N>;
@@ -214,9 +227,12 @@ static void run_kriged_function(const Request& r, std::ostringstream& os) {
   finish(os, ev);
 }
 
+#endif
 static void dispatch(const Request& r, std::ostringstream& os) {
   const auto& k = r.kind;
   const auto n = r.n;
+  (void)n;
+#if C19_PART != 2
   if (k == "k1") {
     Kriging<1u, double> kr;
     kr.setNuggetEffect(r.nug[0]);
@@ -237,7 +253,16 @@ static void dispatch(const Request& r, std::ostringstream& os) {
     CustomL1::table() = r.nug;
     Kriging<2u, double, CustomL1> kr;
     run_kriging<2u>(kr, r, os);
-  } else if (k == "f11") {
+  } else if (k == "kf1") {
+    run_kriged_function<1u>(r, os);
+  } else if (k == "kf2") {
+    run_kriged_function<2u>(r, os);
+  } else if (k == "kf3") {
+    run_kriged_function<3u>(r, os);
+  } else
+#endif
+#if C19_PART != 1
+  if (k == "f11") {
     run_factorized<1u>(r, os);
   } else if (k == "f12") {
     run_factorized<2u>(r, os);
@@ -297,14 +322,10 @@ static void dispatch(const Request& r, std::ostringstream& os) {
       ev.push_back(
           kr(r.q[4 * i], r.q[4 * i + 1], r.q[4 * i + 2], r.q[4 * i + 3]));
     finish(os, ev);
-  } else if (k == "kf1") {
-    run_kriged_function<1u>(r, os);
-  } else if (k == "kf2") {
-    run_kriged_function<2u>(r, os);
-  } else if (k == "kf3") {
-    run_kriged_function<3u>(r, os);
-  } else {
-    os << "bad-op";
+  } else
+#endif
+  {
+    os << "skip";
   }
 }
 
@@ -376,7 +397,7 @@ int main() {
     std::ostringstream os;
     try {
       dispatch(r, os);
-      if (os.str() != "bad-op" && !(c19::cap().seen && c19::cap().solved)) {
+      if (os.str() != "skip" && !(c19::cap().seen && c19::cap().solved)) {
         os.str("");
         os << "err no-capture";
       }
